@@ -636,6 +636,7 @@ def evaluate(ctx, r, out, cqm, ref, st):
             return False
         ctx.tick('exact_solver')
         ran.append(f'ExactCQMSolver().sample_cqm(cqm)')
+        out.append(dict(lines=[f'exact {rat(atol)} {rat(rtol)}'], check=exact_cmp(es), src=list(src), rows=[]))
         seen = set()
         esv = list(es.variables)
         for i in range(len(es.record)):
@@ -653,8 +654,79 @@ def evaluate(ctx, r, out, cqm, ref, st):
             fail('ExactCQMSolver.sample_cqm', 'enumeration', 'the rows are not exactly the assignments of the variables\' domains',
                  f'es = ExactCQMSolver().sample_cqm(cqm)\nassert len(es) == {int(np.prod([len(d) for d in dom]))}\n')
             return False
+    elif (not labs or any(ref.vars[v][0] == 'REAL' for v in labs)) and r.random() < .3:
+        # no variable at all (an empty sample set WITHOUT feasibility fields — recorded, not judged) / a REAL variable (ValueError)
+        try:
+            es0 = dimod.ExactCQMSolver().sample_cqm(cqm, **tol); exc = None
+        except ValueError:
+            es0 = None; exc = 'value'
+        except Exception as e:  # noqa
+            fail('ExactCQMSolver.sample_cqm', 'raises', f'{type(e).__name__}: {e}', f'ExactCQMSolver().sample_cqm(cqm{tolkw})\n')
+            return False
+        ctx.tick('exact_solver: ' + ('no variables' if not labs else 'REAL variable'))
+        if labs and exc is None:
+            fail('ExactCQMSolver.sample_cqm', 'REAL variable', 'a model with a REAL variable was enumerated', f'ExactCQMSolver().sample_cqm(cqm)\nassert False\n')
+            return False
+        out.append(dict(lines=[f'exact {rat(atol)} {rat(rtol)}'], check=exact_cmp(es0, exc), src=list(src), rows=[]))
+    # the first branch of from_samples_cqm: an argument of length 0 (no rows given as a list / array; for a model without
+    # variables also ONE sample given as an empty dict — `len({}) == 0` — recorded as coded)
+    if r.random() < .12:
+        forms = [('[]', [], 0), (f'np.empty((0, {len(labs)}))', np.empty((0, len(labs))), 0), (f'(np.empty((0, {len(labs)})), {labs!r})', (np.empty((0, len(labs))), labs), 2)]
+        if not labs:
+            forms.append(('{}', {}, 0))
+        fsrc, farg, flen = r.choice(forms)
+        try:
+            e0 = SampleSet.from_samples_cqm(farg, cqm, **tol)
+            shp = e0.record.is_satisfied.shape
+            got0 = f'Z {shp[1] if len(shp) > 1 else 0} {int("constraint_labels" in e0.info)}'
+            nrow0 = len(e0.record)
+        except Exception as e:  # noqa
+            fail('SampleSet.from_samples_cqm', 'no rows', f'{type(e).__name__}: {e}', f'SampleSet.from_samples_cqm({fsrc}, cqm)\n')
+            return False
+        ctx.tick(f'from_samples_cqm without rows: len(argument) = {flen}' + (' (one empty dict)' if fsrc == '{}' else ''))
+        if nrow0 != 0 and fsrc != '{}':
+            fail('SampleSet.from_samples_cqm', 'no rows', f'{nrow0} rows reported for an input without rows', f'assert len(SampleSet.from_samples_cqm({fsrc}, cqm)) == 0\n')
+            return False
+        out.append(dict(lines=[f'feas0 {flen}'], expect=got0, src=list(src), rows=[]))
     st['src'] = src + ran      # the evaluations are part of what happened to this object
     return True
+
+
+def exact_cmp(es, exc=None):
+    """comparison of the real `ExactCQMSolver` result with the Lean model's `exact` line: column set, the rows IN ORDER, is_satisfied,
+    is_feasible, energies, presence of `constraint_labels`; returns a function(model line) -> None | message"""
+    def cmp(g):
+        if exc is not None:
+            return None if g == 'X raise:' + exc else f'impl raised {exc}, model `{g[:200]}`'
+        names = es.record.dtype.names
+        if 'is_feasible' not in names:
+            return None if g == 'X nofields' else f'impl returned a sample set without feasibility fields, model `{g[:200]}`'
+        parts = g[2:].split('|') if g.startswith('X ') else []
+        if len(parts) != 6:
+            return f'model `{g[:200]}`, impl returned {len(es.record)} rows'
+        cols, rows, sat, fe, en, lbl = parts
+        cols = cols.split(',') if cols else []
+        esl = [lab(v) for v in es.variables]
+        if sorted(cols) != sorted(esl):
+            return f'columns: impl {esl}, model {cols}'
+        idx = [esl.index(c) for c in cols]
+        n = len(es.record)
+        mrows = rows.split(';') if rows else []
+        if len(mrows) != n:
+            return f'impl {n} rows, model {len(mrows)}'
+        smp = np.asarray(es.record.sample)[:, idx]
+        for i in range(n):
+            if ','.join(str(int(a)) for a in smp[i]) != mrows[i]:
+                return f'row {i}: impl {smp[i].tolist()} (columns {cols}), model {mrows[i]} — the enumeration order differs'
+        isat = ','.join(''.join(str(int(b)) for b in es.record.is_satisfied[i]) for i in range(n))
+        ife = ''.join(str(int(b)) for b in es.record.is_feasible)
+        ien = ','.join(rat(e) for e in es.record.energy)
+        if (isat, ife, ien) != (sat, fe, en):
+            return f'reports: impl {isat[:150]}|{ife[:80]}|{ien[:150]} model {sat[:150]}|{fe[:80]}|{en[:150]}'
+        if ('constraint_labels' in es.info) != (lbl == '1'):
+            return 'presence of info["constraint_labels"]'
+        return None
+    return cmp
 
 
 # ------------------------------------------------------------------------------------------------------------------
@@ -669,21 +741,21 @@ SMALL = [(0, 1), (0, 3), (0, 2), (1, 2), (-1, 1), (5, 6)]
 EDGE = {0, 1, -1, 126, 127, 128, 129, 254, 255, 256, 257, -127, -128, -129, -130, 32766, 32767, 32768, 32769, 65534, 65535, 65536, 65537, -32768, -32769}
 
 
-def exact_domains(ctx, r, thorough):
+def exact_domains(ctx, r, thorough, out):
     """`ExactCQMSolver.sample_cqm` on a CQM whose variables' domains sit at integer-dtype boundaries, every combination of:
     all-INTEGER non-negative / with a negative bound / next to a BINARY or SPIN variable, with or without a discrete constraint.
     Every row with a boundary value and a random sample of the others is compared with the definition; the set of rows must be
     the product of the domains (one-hot assignments for the variables of a discrete constraint).  Returns False to stop."""
-    cqm = CQM(); ref = c05.Ref(); src = []
+    cqm = CQM(); ref = c05.Ref(); src = []; lines = ['new']
     doms = {}
 
     def addvar(v, vt, lo=None, hi=None):
         if vt == 'INTEGER':
             code = f'cqm.add_variable("INTEGER", {v!r}, lower_bound={lo!r}, upper_bound={hi!r})'
-            ref.add_variable(vt, v, lo, hi); doms[v] = list(range(lo, hi + 1))
+            ref.add_variable(vt, v, lo, hi); doms[v] = list(range(lo, hi + 1)); lines.append(f'addvar {vt} {lab(v)} {rat(lo)} {rat(hi)}')
         else:
             code = f'cqm.add_variable({vt!r}, {v!r})'
-            ref.add_variable(vt, v, None, None); doms[v] = [0, 1] if vt == 'BINARY' else [-1, 1]
+            ref.add_variable(vt, v, None, None); doms[v] = [0, 1] if vt == 'BINARY' else [-1, 1]; lines.append(f'addvar {vt} {lab(v)} - -')
         exec(code, dict(cqm=cqm)); src.append(code)
 
     big = r.choice(DOMAINS_QUICK + (DOMAINS_THOROUGH if thorough and r.random() < .5 else []))
@@ -732,7 +804,7 @@ def exact_domains(ctx, r, thorough):
 
     ts = terms()
     code = f'cqm.set_objective({ts!r})'
-    exec(code, dict(cqm=cqm)); src.append(code); ref.set_objective_terms(ts)
+    exec(code, dict(cqm=cqm)); src.append(code); ref.set_objective_terms(ts); lines.append('objt ' + c05.terms_arg(ts))
     mid = (big[0] + big[1]) // 2
     for n in range(r.choice([1, 2, 2, 3])):
         ts = terms()
@@ -746,10 +818,12 @@ def exact_domains(ctx, r, thorough):
         code = f'cqm.add_constraint({ts!r}, {sense!r}, {rhs!r}, {kw})'
         exec(code, dict(cqm=cqm)); src.append(code)
         ref.add_constraint_terms(ts, sense, rhs, f'c{n}', weight, 'linear')
+        lines.append(f'cont {lab(f"c{n}")} {sense} {rat(rhs)} {"-" if weight is None else rat(weight)} 0 {c05.terms_arg(ts)}')
     if disc:
         code = f'cqm.add_discrete({disc!r}, label="d")'
         exec(code, dict(cqm=cqm)); src.append(code)
         ref.add_discrete_vars(disc, 'd', True)
+        lines.append(f'discv {lab("d")} 1 ' + ','.join(lab(v) for v in disc))
     clabels = list(ref.cons)
     atol, rtol = F(r.choice(TOLS)), F(r.choice(TOLS))
     tol = dict(rtol=float(rtol), atol=float(atol))
@@ -826,6 +900,9 @@ def exact_domains(ctx, r, thorough):
                  f'assert d.energy == {float(en)!r} and list(map(bool, d.is_satisfied)) == {wsat!r} and bool(d.is_feasible) == {feas}, d\n')
             return False
     ctx.case(('exact-domains', tuple(src), atol, rtol), nontrivial=nontrivial, sample=dict(build=src, atol=str(atol), rtol=str(rtol)))
+    if nrows <= 3000:
+        # correspondence: the Lean model of the solver on the same model (column set, row ORDER, every report)
+        out.append(dict(lines=lines + [f'exact {rat(atol)} {rat(rtol)}'], check=exact_cmp(es), src=list(src), rows=[]))
     return True
 
 
@@ -844,7 +921,7 @@ def run(ctx):
             break
     thorough = ctx.scale(0, 1) == 1
     for _ in range(ctx.scale(60, 1500)):
-        if not exact_domains(ctx, r, thorough):
+        if not exact_domains(ctx, r, thorough, out):
             break
     lines = [ln for o in out for ln in o['lines']]
     got = run_driver('cqmdriver', lines)
@@ -855,12 +932,13 @@ def run(ctx):
     for o in out:
         k += len(o['lines'])
         g = got[k - 1] if k - 1 < len(got) else 'MISSING'
-        if g != o['expect']:
+        msg = o['check'](g) if 'check' in o else (None if g == o['expect'] else f'impl `{o["expect"][:400]}` model `{g[:400]}`')
+        if msg is not None:
             nbad += 1
             if explained:
                 ctx.notes.append('model/impl report lines differ on a case; property failures were reported for this run')
                 break
-            ctx.fail('correspondence', 'CQM reports vs Lean Feas', 'feas', f'impl `{o["expect"][:400]}` model `{g[:400]}`',
+            ctx.fail('correspondence', 'CQM reports vs Lean Feas', o['lines'][-1].split()[0], msg,
                      detail=dict(build=o['src'], rows=o['rows']))
             if nbad >= 3:
                 break
